@@ -610,6 +610,13 @@ func (f *flight) applyFault(e *env) bool {
 				f.add(mark{class: fault, kind: "body_added", oracle: "refuse_tamper", codes: []int{400, 401}})
 				return true
 			}
+			if t.Chance(300) {
+				// the signed value followed by something else: not the body
+				// that was signed, and not one JSON value either
+				f.body = append(append([]byte{}, f.body...), sim.Pick(t, []string{`{"extra":1}`, " garbage", `,"x":1}`, "\n" + string(f.body), "]", "0"})...)
+				f.add(mark{class: fault, kind: "body_trailing_data", oracle: "refuse_tamper", codes: []int{400, 401}})
+				return true
+			}
 			if t.Bool() || len(f.body) < 2 {
 				f.body = nil
 				f.add(mark{class: fault, kind: "body_removed", oracle: "refuse_tamper", codes: []int{401}})
